@@ -18,7 +18,8 @@ LEVEL_TEXT = ('Proved in Lean on the interpreter model: a define-slot region who
               'code by correspondence on the same-template pairs.')
 LEVEL_NOTE = ('Trusted: Lean kernel; the interpreter model; the harness\'s inliner (independent of Chameleon). Not in the model (oracle only): '
               'macros of other templates and whole templates used as macros. Known findings: D-09a (an unused filler is picked up by a '
-              'macro used inside the macro\'s body that defines a slot of that name), D-09b (… or by a later sibling use).')
+              'macro used inside the macro\'s body that defines a slot of that name), D-09b (… or by a later sibling use), D-09d (tal:on-error '
+              'and i18n:name written on the defining element are applied around the in-place rendering only: they are not part of the macro).')
 RULE = ('(library, caller) pairs from a METAL grammar: 1..3 macros with 0..3 slots (repeated slot names allowed), callers filling every subset '
         'of slots plus unknown names, uses inside repeat / define / fill-slot, nesting depth <= 3, extend chains of length <= 3, TAL '
         'statements (define local/global, condition, repeat, content, attributes, interpolation, macroname) inside macro bodies and fillers '
@@ -380,6 +381,11 @@ def oracle(ctx):
     if r.get('out') != D09B_EXPECT:
         ctx.violation('an unused filler leaks into a later sibling use', {'src': D09B}, expected=D09B_EXPECT, actual=strip(r),
                       finding='D-09b' if r.get('out') == D09B_ACTUAL else None)
+    r = pipeline.run_impl({'src': D09D, 'vars': [], 'objs': []})
+    if r.get('out') != D09D_EXPECT:
+        ctx.violation('use-macro must render what the defining element renders: its tal:on-error is not part of the macro', {'src': D09D},
+                      expected=D09D_EXPECT, actual=strip(r),
+                      finding='D-09d' if (r.get('exc') == 'render' and r.get('cls') == 'NameError') else None)
 
 
 def mark_other(t):
@@ -392,6 +398,8 @@ def mark_other(t):
             mark_other(c)
 
 
+D09D = '<p metal:define-macro="m" tal:on-error="string:E">${nosuch}</p>|<x metal:use-macro="macros[\'m\']"/>'
+D09D_EXPECT = '<p>E</p>|<p>E</p>'
 D09A = ('<a metal:define-macro="n">[<i metal:define-slot="b">nb</i>]</a>|<c metal:define-macro="m">(<x metal:use-macro="macros[\'n\']"/>)</c>|'
         '<y metal:use-macro="macros[\'m\']"><u metal:fill-slot="b">LEAK</u></y>')
 D09A_EXPECT = '<a>[<i>nb</i>]</a>|<c>(<a>[<i>nb</i>]</a>)</c>|<c>(<a>[<i>nb</i>]</a>)</c>'
